@@ -10,6 +10,9 @@
 // "=r" equal to the r-th smallest seen) - the absolute numbers are not determined by the property;
 // for the threaded operation a summary line computed from all values collected on all threads.
 #include "common.h"
+#include <functional>
+#include <condition_variable>
+#include <mutex>
 #include <algorithm>
 #include <atomic>
 #include <memory>
@@ -109,6 +112,53 @@ static std::string mt(int nthreads, int n)
       + " n=" + std::to_string(all.size());
 }
 
+// "on <k> <op...>": the operation is executed on persistent worker thread k (the caller waits for it), so a history
+// can be spread over several threads while staying strictly sequential: what an observer sees must not depend on
+// which thread notified and which one polls
+struct Worker {
+  std::thread th;
+  std::mutex m;
+  std::condition_variable cv;
+  std::function<std::string()> job;
+  std::string result;
+  bool has = false, done = false, quit = false;
+  void loop()
+  {
+    std::unique_lock<std::mutex> lk(m);
+    for (;;) {
+      cv.wait(lk, [&] { return has || quit; });
+      if (quit) return;
+      std::function<std::string()> j = std::move(job);
+      has = false;
+      lk.unlock();
+      std::string r = j();
+      lk.lock();
+      result = std::move(r);
+      done = true;
+      cv.notify_all();
+    }
+  }
+  std::string run(std::function<std::string()> j)
+  {
+    std::unique_lock<std::mutex> lk(m);
+    if (!th.joinable()) th = std::thread([this] { loop(); });
+    job = std::move(j);
+    has = true;
+    done = false;
+    cv.notify_all();
+    cv.wait(lk, [&] { return done; });
+    return result;
+  }
+  ~Worker()
+  {
+    { std::lock_guard<std::mutex> lk(m); quit = true; }
+    cv.notify_all();
+    if (th.joinable()) th.join();
+  }
+};
+static Worker g_workers[3];
+static std::string stepOp(const std::vector<std::string> &w);
+
 int main()
 {
   return vh::run(
@@ -120,6 +170,19 @@ int main()
         seen.clear();
       },
       [](const std::vector<std::string> &w) -> std::string {
+        if (w[0] == "on" && w.size() >= 3) {
+          int k = std::stoi(w[1]) % 3;
+          std::vector<std::string> inner(w.begin() + 2, w.end());
+          return g_workers[k].run([inner] { return stepOp(inner); });
+        }
+        return stepOp(w);
+      });
+}
+
+static std::string stepOp(const std::vector<std::string> &w)
+{
+  {
+      {
         const std::string &op = w[0];
         if (op == "bnew") {
           int b = slot(w.at(1), NB);
@@ -230,5 +293,6 @@ int main()
         if (op == "mt")
           return mt(std::stoi(w.at(1)), std::stoi(w.at(2)));
         return "bad-op";
-      });
+      }
+  }
 }
